@@ -828,8 +828,23 @@ class Node:
             assert not self.is_clone()
 
         if keep_children:
-            for c in self.children.copy():
-                c.move_to(self._parent, before=self)
+            children = self._children
+            if children:
+                parent = self._parent
+                siblings: list[Node] = parent._children  # type: ignore
+                # Same data must not appear twice below one parent
+                sibling_ids = {n._data_id for n in siblings if n is not self}
+                for c in children:
+                    if c._data_id in sibling_ids:
+                        raise UniqueConstraintError(
+                            f"Node.data already exists in parent: {c}"
+                        )
+                # Insert the children at the position of this node
+                idx = _index_of(siblings, self)
+                for c in children:
+                    c._parent = parent
+                siblings[idx:idx] = children
+                self._children = None
         else:
             self.remove_children()
 
